@@ -233,9 +233,24 @@ func (m *Machine) nondetIntrinsic(name string, args []Val) (Val, bool) {
 	case "VerifShared":
 		f := args[0]
 		m.quietFS = true // steps of the two runs are not part of the compared trace
-		m.callValue(f, []Val{goInt(0)})
-		m.callValue(f, []Val{goInt(1)})
+		r0 := m.callValue(f, []Val{goInt(0)})
+		r1 := m.callValue(f, []Val{goInt(1)})
 		m.quietFS = false
+		// the two runs must agree
+		eq := m.strEq(r0.(Str), r1.(Str))
+		m.h.noteAssert("concurrent-reads-differ")
+		if !eq.isTrue() {
+			if eq.isFalse() {
+				m.violate(Violation{Kind: "assert", Label: "concurrent-reads-differ", Pos: m.posStr(m.callPos)})
+				panic(pathAbort{"violation"})
+			}
+			if !m.replaying() {
+				if m.violate(Violation{Kind: "assert", Label: "concurrent-reads-differ", Pos: m.posStr(m.callPos)}, c.Not(eq)) && !m.feasible(eq) {
+					panic(pathAbort{"violation"})
+				}
+			}
+			m.assume(eq)
+		}
 		return nil, true
 	case "VerifFreeze":
 		m.freeze(args[0])
